@@ -220,7 +220,21 @@ func runC09(c *Ctx) {
 			c.Unresolved("R9.2", s.update)
 		} else {
 			progressing := FOr(FCmp("==", MField("Status", "Phase"), MConst("Progressing")), FCmp("==", MField("Status", "Phase"), MConst("Terminating")))
-			under := func(m FactM) bool {
+			var underIn func(fn *ssa.Function, m FactM, depth int) bool
+			under := func(m FactM) bool { return underIn(fn, m, 0) }
+			underIn = func(fn *ssa.Function, m FactM, depth int) bool {
+				// the check may have been moved into a same-package helper whose non-nil result is returned as an error
+				if depth == 0 {
+					for _, hc := range AllCalls(fn) {
+						h := hc.Common().StaticCallee()
+						if h == nil || h.Pkg != fn.Pkg || h.Blocks == nil || h == fn || !underIn(h, m, 1) {
+							continue
+						}
+						if underIn(fn, FNotNil(MResultOf(hc, -1)), 1) {
+							return true
+						}
+					}
+				}
 				for _, b := range fn.Blocks {
 					for k := range b.Succs {
 						if !EdgeFactMatches(b, k, m) {
